@@ -620,12 +620,15 @@ func runC17(c *core.Ctx) {
 			hb := backend.HEXBytes(b)
 			txt, err := hb.MarshalText()
 			c.Eval(4)
-			if err != nil || string(txt) != hex.EncodeToString(b) {
+			// the text is the bytes in hex (the property fixes neither the letter case nor an optional prefix)
+			if err != nil || strings.ToLower(strings.TrimPrefix(strings.TrimPrefix(string(txt), "0x"), "0X")) != hex.EncodeToString(b) {
 				c.Violate("C17|hexbytes|marshal", "%x -> %q %v", b, txt, err)
 			}
-			for _, in := range []string{hex.EncodeToString(b), "0x" + hex.EncodeToString(b), strings.ToUpper(hex.EncodeToString(b))} {
+			// what the library writes it must read back; the other spellings of the same bytes need not be
+			// accepted, but when they are they must mean those bytes
+			for k, in := range []string{string(txt), hex.EncodeToString(b), "0x" + hex.EncodeToString(b), strings.ToUpper(hex.EncodeToString(b))} {
 				var g backend.HEXBytes
-				if err := g.UnmarshalText([]byte(in)); err != nil || !bytes.Equal(g, b) {
+				if err := g.UnmarshalText([]byte(in)); (err != nil && k == 0) || (err == nil && !bytes.Equal(g, b)) {
 					c.Violate("C17|hexbytes|unmarshal", "%q -> %x %v", in, []byte(g), err)
 				}
 			}
